@@ -592,7 +592,7 @@ type raceCase struct {
 func runRaceCase(run *ev.Run, fd *fakeDNS, port string, h2cPort string, cs raceCase) {
 	ips := []string{"127.0.0.1", "127.0.0.2", "127.0.0.3", "::1"}
 	fd.set(cs.Host, ips)
-	opts := []func(*vegeta.Attacker){vegeta.Workers(uint64(cs.Workers)), vegeta.MaxWorkers(uint64(cs.Workers)), vegeta.Timeout(5 * time.Second), vegeta.Connections(2)}
+	opts := []func(*vegeta.Attacker){vegeta.Workers(uint64(cs.Workers)), vegeta.MaxWorkers(uint64(cs.Workers)), vegeta.Timeout(5 * time.Second), vegeta.Connections(128)}
 	useH2C := false
 	for _, o := range cs.Opts {
 		switch o {
@@ -956,7 +956,7 @@ func runC18(c *Ctx) int {
 	c18Resolver(c, run)
 	c18CLI(c, run)
 	run.Floor("cli_race_attacks", int64(c.Pick(3, 6)))
-	run.Floor("cli_race_hits_ok", 300)
+	run.Floor("cli_race_hits_ok", 100)
 	run.Floor("dns_dial_calls", int64(c.Pick(40000, 2000000)))
 	run.Floor("address_coverage_windows_checked", int64(c.Pick(100, 5000)))
 	run.Floor("connect_to_histories", int64(c.Pick(200, 7000)))
